@@ -108,6 +108,27 @@ Theorem C10_per_batch_op : forall p env t st,
       call_sem c t (delivered G env st (nth k hs O)) (map (fun s => crdd_at st' (nth s hs O)) (call_args c)).
 Proof. exact prog_tick. Qed.
 
+(* the same along any history of strictly increasing tick times, from the initial state *)
+Theorem C10_per_batch_op_history : forall p h t env,
+  prog_ok p -> let G := fst (expand p) in let hs := snd (expand p) in
+  increasing 0 (h ++ [(t, env)]) ->
+  exists st st', run_hist G h (init G) = Some st /\ run_hist G (h ++ [(t, env)]) (init G) = Some st' /\
+    forall k c, nth_error p k = Some c ->
+      crdd_at st' (nth k hs O) =
+      call_sem c t (delivered G env st (nth k hs O)) (map (fun s => crdd_at st' (nth s hs O)) (call_args c)).
+Proof. exact prog_hist. Qed.
+
+(* every registered output action (foreachRDD) of ANY program fires exactly once per interval, with
+   the tick time and with the RDD its stream holds in this interval *)
+Theorem C10_action_fires_once : forall p env t st k s,
+  prog_ok p -> nth_error p k = Some (CForeachRDD s) ->
+  let G := fst (expand p) in let hs := snd (expand p) in
+  length (ns st) = length G -> (forall i x, nth_error (ns st) i = Some x -> ctime x < t) ->
+  exists st' evs, tick G env t st = Some st' /\ log st' = log st ++ evs /\
+    fires (nth k hs O) evs = 1%nat /\
+    forall tt args, In (EvFire (nth k hs O) tt args) evs -> tt = t /\ args = [crdd_at st' (nth s hs O)].
+Proof. exact action_once. Qed.
+
 (* the expressions the method bodies build are the RDD operations of the same name *)
 Theorem C10_map_is_rdd_map : forall f r,
   rdd_setName (rdd_setName (rdd_mapPartitionsWithIndex (fun _ p => map f p) r)) = rdd_map f r.
@@ -188,4 +209,19 @@ Proof. vm_compute. reflexivity. Qed.
 (* a source whose interval has no batch, counted directly: empty, not [0] *)
 Example ex_count_of_empty : flat (rdd_count_expr empty_rdd) = [] /\
                             flat (rdd_count_expr (parallelize [] None)) = [VInt 0].
+Proof. vm_compute. split; reflexivity. Qed.
+
+(* a monitored directory: f1 exists before the stream is created (not delivered), f2 appears before
+   the first tick (delivered once), nothing new at the second tick (EmptyRDD, count is empty) *)
+Definition ex_fprog : list call := [CSource (SFile [[102; 49]%N]); CCount 0; CForeachRDD 1].
+Definition ex_ls : listing :=
+  [([102; 49]%N, [VStr [53]%N]); ([102; 50]%N, [VStr [49]%N; VStr [50]%N])].
+Definition ex_fhist : list (Z * (nat -> listing)) := [(1, fun _ => ex_ls); (2, fun _ => ex_ls)].
+Example ex_file_run :
+  option_map (fun st => (ex_flat (crdd_at st 0), ex_flat (crdd_at st 3)))
+             (run_hist (fst (expand ex_fprog)) (firstn 1 ex_fhist) (init (fst (expand ex_fprog))))
+  = Some ([VStr [49]%N; VStr [50]%N], [VInt 2]) /\
+  option_map (fun st => (ex_flat (crdd_at st 0), ex_flat (crdd_at st 3), pops 0 (log st), fires 4 (log st)))
+             (run_hist (fst (expand ex_fprog)) ex_fhist (init (fst (expand ex_fprog))))
+  = Some ([], [], 2%nat, 2%nat).
 Proof. vm_compute. split; reflexivity. Qed.
